@@ -363,6 +363,23 @@ func c14Check(c C14Case, cx *h.Ctx) *h.Failure {
 	if got := g.Area(geom.WithTransform(f)); math.Abs(got-wantArea*det) > tauA*(1+det)*20 {
 		return h.Failf("measure/area-with-transform-det", "Area(WithTransform(f)) = %.15g, exact area x |det f| = %.15g%s", got, wantArea*det, desc())
 	}
+	// a transform that is not affine (a projection-like map): the area is that of the geometry whose control points
+	// are the images, whatever shape that is
+	nf := func(p geom.XY) geom.XY {
+		return geom.XY{X: p.X + p.X*p.Y/8 + T[2], Y: p.Y + p.X*p.X/16 + T[5]}
+	}
+	maxImg := 1.0
+	for _, xy := range modelXYs(model) {
+		q := nf(geom.XY{X: xy[0], Y: xy[1]})
+		maxImg = math.Max(maxImg, math.Max(math.Abs(q.X), math.Abs(q.Y)))
+	}
+	tauN := 1e-9 * maxImg * maxImg
+	if got, want := g.Area(geom.WithTransform(nf)), g.TransformXY(nf).Area(); math.Abs(got-want) > tauN || got != got {
+		return h.Failf("measure/area-with-nonaffine-transform", "Area(WithTransform(f)) = %.15g, TransformXY(f).Area() = %.15g for f(x,y) = (x + xy/8 + %g, y + xx/16 + %g)%s", got, want, T[2], T[5], desc())
+	}
+	if got, want := g.Area(geom.WithTransform(nf), geom.SignedArea), g.TransformXY(nf).Area(geom.SignedArea); math.Abs(got-want) > tauN || got != got {
+		return h.Failf("measure/area-with-nonaffine-transform", "Area(WithTransform(f), SignedArea) = %.15g, TransformXY(f).Area(SignedArea) = %.15g for f(x,y) = (x + xy/8 + %g, y + xx/16 + %g)%s", got, want, T[2], T[5], desc())
+	}
 	// both options together, in both argument orders: the signed area of the transformed geometry
 	sdet := T[0]*T[4] - T[1]*T[3]
 	for _, o := range []struct {
@@ -530,11 +547,64 @@ func c14ConcreteCentroid(g geom.Geometry, x, y float64, ok bool, tol float64, de
 func TestC14(t *testing.T) {
 	h.Run(t, h.Prop[C14Case]{
 		ID:          "C14",
-		Rule:        "cases = one valid geometry of any of the 7 types (polygons with holes touching shells/each other, multi-geometries with empty members, collections with pairwise disjoint members of mixed dimension, nested) traced on a triangulated integer grid and mapped by an injective integer map (lattice family, 3 in 4) or additionally by a well-conditioned float affine map with scale 1e-3..1e6 (float family), paired with a representation change (ring start, direction, hole/member order, Z/M coordinate type), an integer translation and an integer affine transform. Oracles: exact area as the sum of slab trapezoids (cross-checked with the exact shoelace value), exact length / length-weighted centroid at 200 bits, exact area-weighted centroid and point average in rational arithmetic, dimension selection ignoring empty members. Checks: Area, Area(SignedArea) after ForceCCW/ForceCW and under Reverse, Area(WithTransform f) = TransformXY(f).Area() = area x |det f|, Length, Centroid on Geometry and the concrete type; invariance under the representation change, Reverse, ForceCW/CCW; translation invariance/equivariance; additivity over members. Tolerances 1e-9 x magnitude (squared for area). non-trivial = a polygon with a hole, or >= 2 members of the top dimension, or a mixed-dimension collection",
+		Rule:        "cases = one valid geometry of any of the 7 types (polygons with holes touching shells/each other, multi-geometries with empty members, collections with pairwise disjoint members of mixed dimension, nested) traced on a triangulated integer grid and mapped by an injective integer map (lattice family, 3 in 4) or additionally by a well-conditioned float affine map with scale 1e-3..1e6 (float family), paired with a representation change (ring start, direction, hole/member order, Z/M coordinate type), an integer translation and an integer affine transform. Oracles: exact area as the sum of slab trapezoids (cross-checked with the exact shoelace value), exact length / length-weighted centroid at 200 bits, exact area-weighted centroid and point average in rational arithmetic, dimension selection ignoring empty members. Checks: Area, Area(SignedArea) after ForceCCW/ForceCW and under Reverse, Area(WithTransform f) = TransformXY(f).Area() = area x |det f| (also a non-affine f against TransformXY(f).Area()), Length, Centroid on Geometry and the concrete type; invariance under the representation change, Reverse, ForceCW/CCW; translation invariance/equivariance; additivity over members. Tolerances 1e-9 x magnitude (squared for area). non-trivial = a polygon with a hole, or >= 2 members of the top dimension, or a mixed-dimension collection",
 		Assumptions: []string{"exact kernel (internal/exact)", "centre of mass of a MultiPoint counts repeated points with multiplicity"},
 		Gen:         c14Gen,
 		Check:       c14Check,
+		Enumerate:   c14Enumerate,
 	})
 }
 
+// c14Enumerate: wide geometries (more rings / members than any drawn case
+// has): polygons with 127..257 holes of different sizes, MultiPolygons,
+// MultiLineStrings and MultiPoints with as many members.
+func c14Enumerate(cx *h.Ctx, yield func(C14Case)) []string {
+	sq := func(x0, y0, x1, y1 int) []gm.F {
+		return gm.Fs(float64(x0), float64(y0), float64(x1), float64(y0), float64(x1), float64(y1), float64(x0), float64(y1), float64(x0), float64(y0))
+	}
+	for _, k := range []int{127, 128, 129, 255, 256, 257} {
+		poly := gm.G{T: gm.Polygon, Rings: [][]gm.F{sq(0, 0, 4*k, 5)}}
+		mp := gm.G{T: gm.MultiPolygon}
+		mls := gm.G{T: gm.MultiLineString}
+		mpt := gm.G{T: gm.MultiPoint}
+		for i := 0; i < k; i++ {
+			// sizes vary with the index so that weights differ
+			w, hh := 1+i%3, 1+(i/3)%3
+			poly.Rings = append(poly.Rings, sq(4*i+1, 1, 4*i+1+w, 1+hh))
+			mp.Mem = append(mp.Mem, gm.G{T: gm.Polygon, Rings: [][]gm.F{sq(5*i, i%7, 5*i+w, i%7+hh)}})
+			mls.Mem = append(mls.Mem, gm.G{T: gm.LineString, Co: gm.Fs(float64(5*i), float64(i%5), float64(5*i+w), float64(i%5+hh))})
+			mpt.Mem = append(mpt.Mem, gm.G{T: gm.Point, Co: gm.Fs(float64(i*i%97), float64(3*i))})
+		}
+		for _, g := range []gm.G{poly, mp, mls, mpt} {
+			yield(C14Case{OneCase: OneCase{G: g, Family: "lattice", Shape: "wide", Aff: [6]float64{1, 0, 0, 0, 1, 0}},
+				RotSeed: []int{1, 0, 3}, Reverse: []bool{false, true, true}, PermSeed: []int{1, 0, 2, 5}, TX: 7, TY: -11, T: [6]float64{2, 1, 3, -1, 1, 5}, ZMct: k % 4})
+		}
+	}
+	return []string{"polygons with 127..257 holes of varying size, MultiPolygons / MultiLineStrings / MultiPoints with 127..257 members"}
+}
+
 var _ = rapid.Bool
+
+// modelXYs lists the XY of every position of the model.
+func modelXYs(g gm.G) [][2]float64 {
+	var out [][2]float64
+	var rec func(n gm.G)
+	rec = func(n gm.G) {
+		n = n.Norm()
+		d := gm.Dim(n.CT)
+		add := func(fs []gm.F) {
+			for i := 0; i+d <= len(fs); i += d {
+				out = append(out, [2]float64{float64(fs[i]), float64(fs[i+1])})
+			}
+		}
+		add(n.Co)
+		for _, r := range n.Rings {
+			add(r)
+		}
+		for _, m := range n.Mem {
+			rec(m)
+		}
+	}
+	rec(g)
+	return out
+}
